@@ -4,5 +4,6 @@
 const char *san_errfile(void);
 void san_child_redirect(void);          /* call first thing in a case child */
 int  san_classify(char *key, size_t n); /* parent: after the child died; 1 if a sanitizer report was found */
+int  san_classify_file(const char *path, char *key, size_t n); /* same, on a given report file */
 void san_cleanup(void);
 #endif
